@@ -10,8 +10,8 @@ AUDIT = "C15"
 THEOREMS = ["Typedpy.C15." + t for t in (
     "frame", "frame_alone", "use_changes_no_view", "use_preserves_coherence", "define_preserves_coherence",
     "define_changes_no_other_class", "accept_decision_frame", "safe_config_of_safe_tables", "C15_of_safe_config",
-    "frame_safe_tables", "tables_ok", "config_pinned", "current_config", "C15_partial", "registry_counterexample",
-    "required_counterexample", "C15_statement_fails_today", "counterexamples_are_excluded", "frame_example")]
+    "frame_safe_tables", "tables_ok", "pinned_config", "config_no_worse", "current_caches_by_id", "C15_partial", "registry_counterexample",
+    "required_counterexample", "C15_statement_fails_with_findings", "counterexamples_are_excluded", "frame_example")]
 RULE = ("histories of 2-5 (thorough: 2-7) class definitions — roots, subclasses, Omit/Pick/Partial-derived classes, "
         "FastSerializable classes, same-named classes, fields that implicitly wrap 1-4 user classes of which several "
         "share a __name__ (Field[U], Array[U]), ClassReference fields, 18 kinds of self-contained typedpy fields incl. "
@@ -51,11 +51,11 @@ def pre_build():
 
 
 def cases(rng, tier):
-    return S.gen_cases(rng, tier, 330 if tier == "quick" else 6000)
+    return S.announce(S.gen_cases(rng, tier, 1200 if tier == "quick" else 14000))
 
 
 def search_cases(rng, tier):
-    return S.gen_cases(rng, "thorough", 600)
+    return S.announce(S.gen_cases(rng, "thorough", 1500))
 
 
 run_impl = S.run_impl
